@@ -149,6 +149,21 @@ func (w *World) verifyFunc(fn *ssa.Function) *FuncResult {
 			st.assume(g)
 		}
 	}
+	invs, invRecv := w.recvInvFor(fn)
+	evalInv := func(s *State, c *Clause) (*Term, error) {
+		env := x.newSpecEnv(s, s, fn)
+		env.bindRootParams(s.frames[0])
+		env.vars[c.Param] = env.vars[invRecv]
+		return env.evalBool(c.Expr)
+	}
+	for _, c := range invs {
+		g, err := evalInv(st, c)
+		if err != nil {
+			x.contractError(c, err)
+			continue
+		}
+		st.assume(g)
+	}
 	st.old = st.clone()
 	res := &FuncResult{Key: key}
 	if len(fn.Blocks) == 0 {
@@ -162,6 +177,14 @@ func (w *World) verifyFunc(fn *ssa.Function) *FuncResult {
 	x.deadline = time.Now().Add(time.Duration(funcBudgetSec) * time.Second)
 	x.runBlock(st, fn.Blocks[0], nil, func(s2 *State, results []Value) {
 		res.Returns++
+		for _, c := range invs {
+			g, err := evalInv(s2, c)
+			if err != nil {
+				x.contractError(c, err)
+				continue
+			}
+			x.oblige(s2, "ensures", "receiver-invariant:"+c.Label, c.Props, g, token.NoPos)
+		}
 		if fc == nil {
 			return
 		}
